@@ -94,6 +94,7 @@ func VfC05_BothDirections() {
 	p := vfNewTCPProc(0, h)
 	client := vfNewIdleConn("client", &log)
 	backend := vfNewIdleConn("backend", &log)
+	client.idle, backend.idle = *p.cfg.IdleTimeout, *p.cfg.IdleTimeout
 	c2b, b2c := nd.Bytes("c2b", 3), nd.Bytes("b2c", 5)
 	client.reads, backend.reads = [][]byte{c2b}, [][]byte{b2c}
 	oldDial := dialTimeout
@@ -105,6 +106,7 @@ func VfC05_BothDirections() {
 	nd.Quiesce()
 	nd.Assert(!returned, "the relay stays up while both sides keep their connection open")
 	nd.Assert(vfBytesEq(backend.written, c2b) && vfBytesEq(client.written, b2c), "both directions are relayed while the connection is up")
+	nd.Assert(!client.shortDeadline && !backend.shortDeadline, "the idle deadline armed on either side is the configured idle time-out, not a shorter one (e.g. the connect time-out)")
 	nd.Assert(vfCount(log, "C:client") == 0 && vfCount(log, "C:backend") == 0, "no connection is closed while both sides are still sending")
 	switch nd.Concrete(nd.IntRange("event", 0, 2)) {
 	case 0: // the client finishes sending first; the backend still has data
